@@ -224,13 +224,17 @@ def adapt_sql(sql, paramstyle):
     args = []
     kwargs = {}
     original_sql = sql
-    if paramstyle in ('format', 'pyformat'): sql = sql.replace('%', '%%')
+    if paramstyle in ('format', 'pyformat'):
+        # literal % is doubled in the SQL text only, never inside a $-expression
+        def text(s): return s.replace('%', '%%')
+    else:
+        def text(s): return s
     while True:
         try: i = sql.index('$', pos)
         except ValueError:
-            result.append(sql[pos:])
+            result.append(text(sql[pos:]))
             break
-        result.append(sql[pos:i])
+        result.append(text(sql[pos:i]))
         if sql[i+1] == '$':
             result.append('$')
             pos = i+2
